@@ -181,7 +181,7 @@ func harnesses(r *fw.Run) []fw.HarnessSpec {
 	}
 
 	add("dictionary-proofs", 0, func(c *enum.Ctx) {
-		n := []int{8, 16, 32, 256}[c.ChooseFree(4)]
+		n := []int{8, 16, 32, 256, 9, 12, 15}[c.ChooseFree(7)] // byte-aligned widths and widths with a trailing partial byte
 		alpha := adversarialKeys(n)
 		maxSize := r.Pick(3, 5)
 		var es []dict.Entry
@@ -256,6 +256,12 @@ func harnesses(r *fw.Run) []fw.HarnessSpec {
 					err = marshalDict[tlb.Uint32](root, es)
 				case 256:
 					err = marshalDict[tlb.Bits256](root, es)
+				case 9:
+					err = marshalDict[tlb.Uint9](root, es)
+				case 12:
+					err = marshalDict[tlb.Uint12](root, es)
+				case 15:
+					err = marshalDict[tlb.Uint15](root, es)
 				}
 				if err != nil {
 					c.Fail("setup-encode", "%v", err)
@@ -480,6 +486,12 @@ func lookupIn(root *tb.Cell, n int, key bits.Bits) (int64, bool, error) {
 		return lookupT[tlb.Uint16](root, find)
 	case 32:
 		return lookupT[tlb.Uint32](root, find)
+	case 9:
+		return lookupT[tlb.Uint9](root, find)
+	case 12:
+		return lookupT[tlb.Uint12](root, find)
+	case 15:
+		return lookupT[tlb.Uint15](root, find)
 	default:
 		return lookupT[tlb.Bits256](root, find)
 	}
